@@ -152,8 +152,12 @@ func TestSim(t *testing.T) {
 		die(2, "harness: local time zone must be UTC (TZ=UTC), got %s%+d", name, off)
 	}
 	exec.VerifStep = stepHook
-	if err := InitPool(); err != nil {
-		die(2, "%v", err)
+	// Replay-type roles can run without ever touching the pool or the
+	// generator, so that the process history is the scenario alone.
+	if os.Getenv("SIM_NOPOOL") == "" || (role != "seq" && role != "replay") {
+		if err := InitPool(); err != nil {
+			die(2, "%v", err)
+		}
 	}
 	// The hook must be alive: a trivially stepping query has to report steps.
 	{
@@ -398,7 +402,21 @@ func TestSim(t *testing.T) {
 		fmt.Println(TwinCount())
 
 	case "dump":
+		seeds := []uint64{}
 		for seed := from; seed < to; seed++ {
+			seeds = append(seeds, seed)
+		}
+		if list := os.Getenv("SIM_SEEDS"); list != "" {
+			seeds = seeds[:0]
+			for _, f := range strings.Split(list, ",") {
+				v, err := strconv.ParseUint(f, 10, 64)
+				if err != nil {
+					die(2, "harness: bad SIM_SEEDS")
+				}
+				seeds = append(seeds, v)
+			}
+		}
+		for _, seed := range seeds {
 			prop := os.Getenv("SIM_PROPERTY")
 			if prop == "" {
 				prop = "C19"
